@@ -212,8 +212,8 @@ func kindName(k jsonv.Kind) string { return k.String() }
 
 // Validate judges an instance against a schema.
 func Validate(inst, s *jsonv.Value, path string, ctx *Ctx) error {
-	if ctx.depth > 200 {
-		return &Err{Keyword: "depth", Path: path, Msg: "$ref recursion deeper than 200"}
+	if ctx.depth > 20000 {
+		return &Err{Keyword: "depth", Path: path, Msg: "schema recursion deeper than 20000 (a $ref loop that consumes nothing of the instance)"}
 	}
 	ctx.depth++
 	defer func() { ctx.depth-- }()
